@@ -10,6 +10,7 @@ let () =
     | "resolve" -> M_resolve.handle
     | "visit" -> M_visit.handle
     | "validate" -> M_validate.handle
+    | "lints" -> M_lints.handle
     | _ -> prerr_endline ("unknown component " ^ comp); exit 2 in
   let out = Buffer.create 65536 in
   (try while true do
